@@ -115,6 +115,7 @@ def writer_fields_buffer(fn):
     """writers that fill a local byte array: buf[i] = v / buf[a..b].copy_from_slice(x.to_le_bytes()) -> field/const -> (lo,hi,ty,adj)"""
     R = Resolver(fn)
     out = {}
+    computed_store = False
     for n, ds in fn.defs().items():
         for kind, payload, bi, si, place in ds:
             if kind != "stmt" or not place["proj"] or bi not in fn.cfg():
@@ -126,6 +127,8 @@ def writer_fields_buffer(fn):
                 name, adj = _source_name(v)
                 if idx is not None:
                     out[name] = (idx, idx + 1, "u8", adj)
+                elif "u8" in fn.local_ty(place["local"]):
+                    computed_store = True
     for bi, t in fn.calls(lambda c, t: c.endswith("copy_from_slice")):
         for dtree, stree in table_instances([R.operand(t["args"][0]), R.operand(t["args"][1])]):
             dst = _range_consts(dtree)
@@ -162,6 +165,8 @@ def writer_fields_buffer(fn):
                 raise Unusable("layout: %s copies header bytes element-wise into a view of unknown length" % short(fn.path))
             name, adj = _source_name(strip(src[2][0]))
             out[name] = (bv[1], min(end, bv[1] + size), _int_ty(src[1]), adj)      # zip stops at the shorter side
+    if computed_store and not any(v[2] in ("u16", "u32", "u64") for v in out.values()):
+        raise Unusable("layout: %s stores header bytes at computed positions (a loop over the byte index); the layout table cannot be extracted" % short(fn.path))
     # the whole header as one array literal: [ID, flags, len[0], len[1], ...]
     for bi in fn.cfg():
         for st in fn.blocks[bi]["stmts"]:
